@@ -14,6 +14,7 @@ func init() {
 }
 
 func runC04(p *Prog, r *Report) {
+	readyListPermutedOnly(p, r, "C04.24/ready-list-permuted-only")
 	{
 		q := NewQ(p, r)
 		R := "C04.23/requeue-sites"
@@ -407,4 +408,97 @@ func capturedSnapshotOf(v ssa.Value, suffix string) bool {
 		break
 	}
 	return false
+}
+
+// readyListPermutedOnly (C04.24): outside the functions that may change the membership of
+// REQ's ready list (scheduler, end of a transmission, attach, detach) the list is only
+// re-ordered: element writes come as an exchange — each written position receives the value
+// read from another written position — and nothing copies or appends into it.  A shift or a
+// block copy that is off by one drops an idle peer and lists another twice: the request carried
+// by a connection that closes later is then not re-sent to the peer that was dropped.
+func readyListPermutedOnly(p *Prog, r *Report, R string) {
+	r.Describe(R, "where REQ's ready list is touched by anything but the scheduler, the end of a transmission, attach and detach, its elements are exchanged (each written slot gets the value read from another written slot), never shifted or block-copied: the list keeps exactly the idle pipes it had")
+	table := map[string]bool{"protocol/req.(*socket).send": true, "protocol/req.(*pipe).sendCtx": true, "protocol/req.(*socket).AddPipe": true, "protocol/req.(*socket).RemovePipe": true}
+	n := 0
+	for _, fn := range p.Funcs {
+		if rel, _ := p.FuncRel(fn); rel != "protocol/req" {
+			continue
+		}
+		name := p.FuncName(fn)
+		if table[name] {
+			continue
+		}
+		attr := p.attributedTo(name)
+		allIn := len(attr) > 0
+		for _, a := range attr {
+			if !table[a] {
+				allIn = false
+			}
+		}
+		if allIn {
+			continue
+		}
+		isReady := func(v ssa.Value) bool {
+			for i := 0; i < 4; i++ {
+				switch x := v.(type) {
+				case *ssa.Slice:
+					v = x.X
+					continue
+				}
+				break
+			}
+			fv, owner, _ := loadedField(v)
+			return fv != nil && owner != nil && fv.Name() == "readyQ" && owner.Obj().Name() == "socket"
+		}
+		dst := map[string]bool{}
+		src := map[string]bool{}
+		bad := ""
+		touched := false
+		EachInstr(fn, func(in ssa.Instruction) {
+			switch x := in.(type) {
+			case *ssa.Store:
+				ia, ok := x.Addr.(*ssa.IndexAddr)
+				if !ok || !isReady(ia.X) {
+					return
+				}
+				touched = true
+				dst[Desc(ia.Index)] = true
+				ld, ok := x.Val.(*ssa.UnOp)
+				if !ok {
+					bad = "slot " + Desc(ia.Index) + " is given " + Desc(x.Val) + ", not an element of the list, at " + p.InstrPos(in)
+					return
+				}
+				ia2, ok := ld.X.(*ssa.IndexAddr)
+				if !ok || !isReady(ia2.X) {
+					bad = "slot " + Desc(ia.Index) + " is given " + Desc(x.Val) + ", not an element of the list, at " + p.InstrPos(in)
+					return
+				}
+				src[Desc(ia2.Index)] = true
+			case *ssa.Call:
+				if (IsBuiltin(&x.Call, "copy") || IsBuiltin(&x.Call, "append")) && len(x.Call.Args) > 0 && isReady(x.Call.Args[0]) {
+					touched = true
+					bad = "the list is the destination of " + x.Call.Value.Name() + " at " + p.InstrPos(in)
+				}
+			}
+		})
+		if !touched {
+			continue
+		}
+		n++
+		if bad == "" {
+			for k := range dst {
+				if !src[k] {
+					bad = "slot " + k + " is overwritten but its old value is not written anywhere (an element is lost)"
+				}
+			}
+			for k := range src {
+				if !dst[k] {
+					bad = "the element at " + k + " is written to another slot but stays in its own (an element is duplicated)"
+				}
+			}
+		}
+		r.Check(bad == "", R, name, p.Pos(fn.Pos()), "elements are exchanged", name+" changes the ready list other than by exchanging elements: "+bad+": an idle pipe is dropped from the list (or listed twice), and a request whose connection closes later is not re-sent to it")
+	}
+	r.Count("c04.ready_list_permuters", n)
+	r.Floor(R, "c04.ready_list_permuters", 1)
 }
